@@ -166,3 +166,13 @@ def run(ctx):
 def replay(ctx, payload):
     print(payload)
     return 0
+
+CLAIM = {'note': "Trusted: Coq kernel + vm_compute; harness; typing's Union/==/`is` semantics as modelled; live "
+         '__mro__/__bases__ tables.',
+ 'ref': '4/C07',
+ 'technique': 'Coq model + theorems, vm_compute differential correspondence',
+ 'text': 'Coq model of the generic traversal and all shipped rewriters (Model/Rewrite.v) with '
+         'DEFAULT_REWRITER regenerated from source; theorems default_chain_modelled, noop_identity '
+         '(monotonicity development pending); differential check over ~22k (rewriter chain, type) cases with '
+         'Coq-evaluated verdicts: no exception, no witness value lost (tight reading in, annotation reading '
+         'out), change only with trigger, model = implementation.'}
